@@ -590,6 +590,9 @@ struct Gen<'a> {
     /// that concurrently running and successive conversions keep switching between a few
     /// *different* configurations (what a configuration-keyed cache would have to get right)
     palette: Vec<CfgI>,
+    /// slots that probably hold an object when the op being generated runs (generation-time
+    /// guess: constructors and conversions are assumed to succeed, other threads are ignored)
+    populated: Vec<bool>,
 }
 
 impl Gen<'_> {
@@ -597,6 +600,29 @@ impl Gen<'_> {
         // slots of class c: c, c+6, c+12, ... below self.slots
         let n = (self.slots + N_CLASSES - 1 - class) / N_CLASSES;
         class + N_CLASSES * self.r.below(n.max(1))
+    }
+    /// a source slot of `class`, preferring one that is probably populated
+    fn src_of_class(&mut self, class: u64) -> u64 {
+        if self.r.pct(85) {
+            let cands: Vec<u64> = (0..self.slots).filter(|s| slot_class(*s) == class && self.populated[*s as usize]).collect();
+            if !cands.is_empty() {
+                return self.r.pick(&cands);
+            }
+        }
+        self.slot_of_class(class)
+    }
+    fn note(&mut self, op: &Op) {
+        match op.k {
+            Kind::NewYuv | Kind::NewFloat | Kind::CloneTo => self.populated[op.slot as usize] = true,
+            Kind::Conv => {
+                self.populated[op.slot as usize] = true;
+                if op.consume != 0 && !CONVS[op.which as usize].by_ref {
+                    self.populated[op.src as usize] = false;
+                }
+            }
+            Kind::DropSlot => self.populated[op.slot as usize] = false,
+            _ => {}
+        }
     }
     fn meta(&mut self, n_good: u64, n_all: u64, unspec_pct: u64) -> u64 {
         let x = self.r.below(100);
@@ -785,7 +811,9 @@ impl Gen<'_> {
         }
         op.dataseed = self.r.next();
         let special = if self.prof == Profile::Safety { 30 } else { 8 };
-        op.datamode = if class == CL_HSL && self.r.pct(70) {
+        op.datamode = if self.prof == Profile::Metadata && class != CL_HSL && self.r.pct(80) {
+            0
+        } else if class == CL_HSL && self.r.pct(70) {
             3
         } else if self.r.pct(special) {
             2
@@ -800,8 +828,13 @@ impl Gen<'_> {
     fn conv(&mut self) -> Op {
         let mut op = Op::blank(Kind::Conv);
         op.which = self.r.below(CONVS.len() as u64);
+        if self.prof == Profile::Metadata && self.r.pct(45) {
+            // conversions that take metadata from the caller and start from linear light: the
+            // ones whose label can disagree with what was applied
+            op.which = self.r.pick(&[20u64, 21, 22, 24, 25, 26]);
+        }
         let cs = CONVS[op.which as usize];
-        op.src = self.slot_of_class(cs.src);
+        op.src = self.src_of_class(cs.src);
         op.slot = self.slot_of_class(cs.dst);
         if cs.needs_cfg {
             op.cfg = self.cfg(if cs.dst == CL_Y8 { 0 } else { 1 });
@@ -858,7 +891,7 @@ impl Gen<'_> {
             3 => {
                 let mut op = Op::blank(Kind::Mutate);
                 let c = self.r.range(CL_RGB, CL_HSL);
-                op.slot = self.slot_of_class(c);
+                op.slot = self.src_of_class(c);
                 op.which = self.r.range(1, 6);
                 op.dataseed = self.r.next();
                 op.datamode = if self.r.pct(15) { 2 } else { 0 };
@@ -867,7 +900,7 @@ impl Gen<'_> {
             4 => {
                 let mut op = Op::blank(Kind::CloneTo);
                 let c = self.r.below(N_CLASSES);
-                op.src = self.slot_of_class(c);
+                op.src = self.src_of_class(c);
                 op.slot = self.slot_of_class(c);
                 op
             }
@@ -879,7 +912,7 @@ impl Gen<'_> {
             6 => {
                 let mut op = Op::blank(Kind::Rewrap);
                 let c = self.r.range(CL_RGB, CL_HSL);
-                op.slot = self.slot_of_class(c);
+                op.slot = self.src_of_class(c);
                 op
             }
             7 => {
@@ -933,13 +966,14 @@ pub fn generate(seed: u64, prof: Profile, miri: bool) -> RunTrace {
     // a third of the native runs and two thirds of the Miri workloads are contention scenarios
     let contention = r.pct(if miri { 66 } else { 33 });
     let palette = if contention { make_palette(&mut r) } else { Vec::new() };
-    let mut g = Gen { r: &mut r, prof, slots, maxdim, palette };
+    let mut g = Gen { r: &mut r, prof, slots, maxdim, palette, populated: vec![false; slots as usize] };
     let mut pre = Vec::new();
     // the preamble populates the pool: constructors (mostly well formed so that there is
     // something to convert), one of each class first
     for i in 0..npre {
         let c = i % N_CLASSES;
         let op = if c <= CL_Y16 { g.new_yuv(c) } else { g.new_float(c) };
+        g.note(&op);
         pre.push(op);
     }
     let mut threads = Vec::new();
@@ -947,6 +981,7 @@ pub fn generate(seed: u64, prof: Profile, miri: bool) -> RunTrace {
         let mut ops = Vec::new();
         for _ in 0..nops {
             let mut op = g.op();
+            g.note(&op);
             if miri {
                 // Miri is ~3 orders of magnitude slower: keep images tiny, no threshold sizes
                 shrink_for_miri(&mut op);
